@@ -496,7 +496,16 @@ func (x *Exec) applyContract(st *State, fr *Frame, ct *Contract, fn *ssa.Functio
 	applied[ct.Key] = true
 	env := map[string]Val{}
 	args := cc.Args
-	// closures: free variables are not available at call sites (named func types): skip
+	// free variables of a closure created on this path: their addresses are known
+	for i, fv := range fn.FreeVars {
+		if i < len(cc.Bind) {
+			b := cc.Bind[i]
+			if b.GoT == nil {
+				b.GoT = fv.Type()
+			}
+			env["&"+fv.Name()] = b
+		}
+	}
 	for i, p := range fn.Params {
 		if i < len(args) {
 			env[p.Name()] = args[i]
@@ -750,7 +759,7 @@ func (x *Exec) obligeParts(st *State, old *State, fr *Frame, ct *Contract, e Exp
 	var goals []Term
 	okAll := true
 	for _, part := range parts {
-		v, err := x.evalExpr(&evalCtx{x: x, st: st, old: old, env: env, fr: fr}, part)
+		v, err := x.evalExpr(&evalCtx{x: x, st: st, old: old, env: env, fr: fr, goal: true}, part)
 		if err != nil || v.K != VScalar || v.T.Sort != SBool {
 			// a conjunct that guards a later one may have been split off: prove the clause as a whole
 			okAll = false
@@ -759,7 +768,16 @@ func (x *Exec) obligeParts(st *State, old *State, fr *Frame, ct *Contract, e Exp
 		goals = append(goals, v.T)
 	}
 	if !okAll {
-		x.oblige(st, name, x.evalExprBool(st, old, fr, e, env), "prove")
+		v, err := x.evalExpr(&evalCtx{x: x, st: st, old: old, env: env, fr: fr, goal: true}, e)
+		g := BoolT(false)
+		if err != nil {
+			x.errorf("%s: %v", x.TopKey, err)
+		} else if v.K != VScalar || v.T.Sort != SBool {
+			x.errorf("%s: clause is not boolean: %v", x.TopKey, e)
+		} else {
+			g = v.T
+		}
+		x.oblige(st, name, g, "prove")
 		return
 	}
 	for _, g := range goals {
